@@ -22,7 +22,7 @@ RULE = ("the nine shipped tables and random custom tables (3-40 strictly ascendi
         "additionally 40 points per interval against the linear interpolant and a golden snapshot before/after library "
         "use; a case = (table, BC); non-trivial for every table (custom tables are all distinct)")
 MUST_OBSERVE = ["tables_under_non_default_configuration", "tables_checked", "shipped_tables_checked", "custom_tables_checked", "node_queries", "midpoint_side_queries",
-                "beyond_table_queries", "first_interval_queries", "tables_not_starting_at_mach0", "below_table_queries", "tables_tuned_in_place_between_setups", "linear_band_points", "golden_comparisons",
+                "beyond_table_queries", "first_interval_queries", "tables_not_starting_at_mach0", "below_table_queries", "tables_tuned_in_place_between_setups", "linear_band_points", "golden_comparisons", "tables_after_another_table_on_the_same_calculator",
                 "constant_checks"]
 ASSUMPTIONS = ["golden snapshot vf/golden/drag_tables.json (taken from the pinned commit; spot values agree with the published "
                "G1/G7) is the trusted statement of 'the published tables'",
@@ -138,6 +138,26 @@ def check_table(ctx, case, thorough):
             p.Mach, p.CD = m, c
         dm.BC = case["bc"]
         ctx.count("tables_tuned_in_place_between_setups")
+    q0 = None
+    if case.get("prior"):
+        # the same calculator has just served another shot with another (sparse) table: a short flight and a few look-ups of
+        # its own; whatever the last of them left behind, the first look-ups for the new shot (taken next to it) are the new table's
+        pr = case["prior"]
+        pshot = build.shot({"table": pr["table"], "bc": pr["bc"], "mv_fps": pr["mv_fps"]})
+        if pr.get("fire_ft"):
+            from vf import monitors  # pylint: disable=import-outside-toplevel
+            with monitors.quiet():
+                try:
+                    calc.fire(pshot, Distance.Foot(pr["fire_ft"]), Distance.Foot(pr["fire_ft"]))
+                except pb.RangeError:
+                    pass
+            q0 = pr["mv_fps"] / 1116.45
+        else:
+            tc._init_trajectory(pshot)  # pylint: disable=protected-access
+        for q in pr.get("lookups", []):
+            tc.drag_by_mach(q)
+            q0 = q
+        ctx.count("tables_after_another_table_on_the_same_calculator")
     tc._init_trajectory(shot)  # the call the solver itself makes  pylint: disable=protected-access
     bc = case["bc"]
     ctx.count("tables_checked")
@@ -148,7 +168,9 @@ def check_table(ctx, case, thorough):
     if [(p.Mach, p.CD) for p in calc.cdm] != list(tab):
         ctx.violation("cdm-table", "Calculator.cdm differs from the table given", case)
     # retardation constant from the nodes (at a node the curve value is the tabulated one)
-    ks = [tc.drag_by_mach(m) * bc / cd for m, cd in tab]
+    order = sorted(range(len(tab)), key=lambda i: abs(tab[i][0] - q0)) if q0 is not None else range(len(tab))
+    ks_by_node = {i: tc.drag_by_mach(tab[i][0]) * bc / tab[i][1] for i in order}
+    ks = [ks_by_node[i] for i in range(len(tab))]
     k_hat = sorted(ks)[len(ks) // 2]
     ctx.count("constant_checks")
     ctx.max("constant_rel_dev", abs(k_hat / K_EXACT - 1))
@@ -233,13 +255,26 @@ def battery(ctx):
         ctx.count("battery_calls", 6)
 
 
+def gen_prior(rng):
+    n = rng.choice([3, 4, 5])
+    machs = sorted({0.0} | {round(rng.uniform(0.3, 6.0), 2) for _ in range(n)})
+    cd = round(rng.uniform(0.1, 0.8), 3)
+    pr = {"table": [[m, round(cd * rng.uniform(0.8, 1.25), 4)] for m in machs], "bc": round(rng.uniform(0.1, 1.0), 3),
+          "mv_fps": round(rng.uniform(400, 3400), 0)}
+    if rng.random() < 0.5:
+        pr["fire_ft"] = rng.choice([3.0, 30.0, 300.0])
+    if rng.random() < 0.7 or "fire_ft" not in pr:
+        pr["lookups"] = [round(rng.uniform(0, 6), 3) for _ in range(rng.choice([1, 2, 4]))] + [rng.choice([0.0, round(rng.uniform(0, 6), 3)])]
+    return pr
+
+
 def run(ctx):
     thorough = ctx.tier != "quick"
     if ctx.shard == 0:
         check_golden(ctx, "at import")
     for n in ctx.my(TABLE_NAMES):
         for bc in ([0.05, 0.381, 1.2] if not thorough else [0.05, 0.1, 0.223, 0.381, 0.7, 1.0, 1.2]):
-            check_table(ctx, {"table": n, "bc": bc, "tuned_in_place": bc != 0.381,
+            check_table(ctx, {"table": n, "bc": bc, "tuned_in_place": bc != 0.381, "prior": gen_prior(ctx.rng) if bc != 0.05 else None,
                               "config": CONFIGS[(TABLE_NAMES.index(n) + int(bc * 1000)) % len(CONFIGS)]}, thorough)
     if ctx.shard == 0:
         battery(ctx)
@@ -249,7 +284,7 @@ def run(ctx):
         if not ctx.time_left():
             break
         check_table(ctx, {"table": gen.custom_table(ctx.rng), "bc": round(ctx.rng.uniform(0.05, 1.2), 4),
-                          "tuned_in_place": ctx.rng.random() < 0.5,
+                          "tuned_in_place": ctx.rng.random() < 0.5, "prior": gen_prior(ctx.rng) if ctx.rng.random() < 0.4 else None,
                           "config": ctx.rng.choice(CONFIGS) if ctx.rng.random() < 0.3 else None}, thorough)
 
 
@@ -258,4 +293,4 @@ def replay(ctx, case):
         check_golden(ctx, case["stage"])
     else:
         check_table(ctx, {"table": case["table"], "bc": case["bc"], "tuned_in_place": case.get("tuned_in_place"),
-                          "config": case.get("config")}, True)
+                          "config": case.get("config"), "prior": case.get("prior")}, True)
